@@ -13,6 +13,9 @@
 (*                               st = "parse" | "compile"                  *)
 (*       | "render"  n = index of the error, len = length of its rendering *)
 (*       | "load"    r = "ok" | "err" (cls = class of the loader's refusal)*)
+(*       | "run"     r = "done" | how the run ended otherwise; only for    *)
+(*                   cases with a byte expectation, after load ok; the     *)
+(*                   record's field `out` holds what the chunk printed     *)
 (*       | "finish"                                                        *)
 (*       | "panic" | "render_panic"                    (no spec action)    *)
 (* Record k is validated independently (Init ranges over all k).  Events   *)
@@ -32,25 +35,35 @@ EXTENDS SyltLoad, SyltCorners, Json, IOUtils
 
 VARIABLES k,      \* index of the record being validated
           j,      \* index of the next event of that record
-          st      \* "run" | "ok" | "fail"
+          st,     \* "run" | "ok" | "fail"
+          cs      \* CaseSummary(k): [ok, input, expect]
 
-tvars == <<phase, input, stage, errs, bytes, rendered, loaded, k, j, st>>
+tvars == <<phase, input, stage, errs, bytes, rendered, loaded, k, j, st, cs>>
 
 Rec == ndJsonDeserialize(IOEnv.TRACE)
 N == Len(Rec)
 Full == "FULL" \in DOMAIN IOEnv /\ IOEnv.FULL = "1"
 
 IsLex(q) == Rec[q].u = "lex"
-UniverseOK(q) ==
+\* The cases the trace names, derived once when TLC starts (a constant definition): the whole universe for the complete
+\* validation (FULL = 1), else just the indices that occur (corpus, C01 universe, negative controls, replays).
+\* `\o` turns the lazy function expression into an evaluated tuple.  This is the ONLY reference to SyltCorners' text
+\* builders in this module, and TraceInit is the only action that looks at LexTable (it copies what the later steps need
+\* into the state variable cs): with -coverage TLC walks the definition graph below every action as a TREE before it
+\* starts, and a dozen references to the universe cost minutes.
+NeededIdx == {Rec[q].idx : q \in {p \in 1..N : IsLex(p)}}
+NoCase == [id |-> [fam |-> "-", a |-> "-", b |-> "-", n |-> 0], files |-> <<>>, req |-> "", must |-> FALSE, expect |-> "-"]
+LexTable == [i \in 1..NCases |-> IF Full \/ i \in NeededIdx THEN CaseAt(i) ELSE NoCase] \o <<>>
+\* what the validation of record q needs to know about its case: does the record carry exactly the case the specification
+\* derives for its index; the text the run was started on; the bytes it must print when run ("-": it is only loaded)
+CaseSummary(q) ==
     IF IsLex(q)
-    THEN /\ Rec[q].idx \in 1..NCases
-         /\ Rec[q].id = Case(Rec[q].idx).id
-         /\ Rec[q].files = Case(Rec[q].idx).files
-         /\ Rec[q].req = Case(Rec[q].idx).req
-    ELSE Rec[q].u \in {"corpus", "sem"} /\ Rec[q].id.fam = Rec[q].u /\ Rec[q].idx = q
-
-\* the text the run was started on
-CaseInput(q) == IF IsLex(q) THEN Case(Rec[q].idx).files[1].text ELSE Rec[q].id.a
+    THEN IF Rec[q].idx \in 1..NCases
+         THEN LET c == LexTable[Rec[q].idx] IN
+              [ok |-> Rec[q].id = c.id /\ Rec[q].files = c.files /\ Rec[q].req = c.req,
+               input |-> c.files[1].text, expect |-> c.expect]
+         ELSE [ok |-> FALSE, input |-> "", expect |-> "-"]
+    ELSE [ok |-> Rec[q].u \in {"corpus", "sem"} /\ Rec[q].id.fam = Rec[q].u /\ Rec[q].idx = q, input |-> Rec[q].id.a, expect |-> "-"]
 
 ASSUME TraceComplete == Full => {Rec[q].idx : q \in {p \in 1..N : IsLex(p)}} = 1..NCases /\ N = NCases
 
@@ -61,23 +74,25 @@ HasEv == j <= NE
 
 TraceInit ==
     /\ k \in 1..N
-    /\ Assert(UniverseOK(k), <<"universe mismatch at record", k, Rec[k].idx, Rec[k].id>>)
+    /\ cs = CaseSummary(k)
+    /\ Assert(cs.ok, <<"universe mismatch at record", k, Rec[k].idx, Rec[k].id>>)
     /\ (k = 1 => PrintT(<<"UNIVERSE", ToJson([ncases |-> NCases, records |-> N, full |-> Full])>>))
     /\ LInit
     /\ j = 1 /\ st = "run"
 
-Consume == j' = j + 1 /\ UNCHANGED <<k, st>>
+NeedsRun == cs.expect # "-"
+Consume == j' = j + 1 /\ UNCHANGED <<k, st, cs>>
 
 TraceStart ==
     /\ st = "run" /\ HasEv /\ Ev.e = "start"
-    /\ LStart(CaseInput(k))
+    /\ LStart(cs.input)
     /\ Consume
 
 \* unobserved: the front end accepted (the next event reports the back end's outcome)
 TraceParseOk ==
     /\ st = "run" /\ HasEv /\ Ev.e = "ret" /\ (Ev.r = "ok" \/ Ev.st = "compile")
     /\ LParseOk
-    /\ UNCHANGED <<k, j, st>>
+    /\ UNCHANGED <<k, j, st, cs>>
 
 TraceRetErr ==
     /\ st = "run" /\ HasEv /\ Ev.e = "ret" /\ Ev.r = "err"
@@ -102,23 +117,40 @@ TraceLoadOk ==
     /\ LoadOk
     /\ Consume
 
+\* the loaded chunk ran to completion and printed exactly the bytes the specification derives for the case; a run that
+\* ends otherwise, or prints anything else, is consumed by NO action (the protocol state is not touched: C06's protocol
+\* ends with the load, the run only shows WHAT was loaded)
+TraceRun ==
+    /\ st = "run" /\ HasEv /\ Ev.e = "run"
+    /\ NeedsRun /\ loaded = "yes"
+    /\ Ev.r = "done" /\ Rec[k].out = cs.expect
+    /\ Consume
+    /\ UNCHANGED <<phase, input, stage, errs, bytes, rendered, loaded>>
+
+RanIfNeeded == NeedsRun /\ phase = "compiled" => j > 1 /\ Rec[k].ev[j - 1].e = "run"
+
 TraceFinish ==
     /\ st = "run" /\ HasEv /\ Ev.e = "finish"
+    /\ RanIfNeeded
     /\ LFinish
     /\ Consume
 
-TraceStep == TraceStart \/ TraceParseOk \/ TraceRetErr \/ TraceRetOk \/ TraceRender \/ TraceLoadOk \/ TraceFinish
+TraceStep == TraceStart \/ TraceParseOk \/ TraceRetErr \/ TraceRetOk \/ TraceRender \/ TraceLoadOk \/ TraceRun \/ TraceFinish
 
 TraceAccept ==
     /\ st = "run" /\ ~HasEv /\ Complete
     /\ st' = "ok"
-    /\ UNCHANGED <<phase, input, stage, errs, bytes, rendered, loaded, k, j>>
+    /\ UNCHANGED <<phase, input, stage, errs, bytes, rendered, loaded, k, j, cs>>
 
 Why == IF ~HasEv THEN "truncated"
        ELSE IF Ev.e \in {"panic", "render_panic"} THEN Ev.e
        ELSE IF Ev.e = "load" /\ Ev.r = "err" /\ phase = "compiled" THEN "load-error"
        ELSE IF Ev.e = "load" THEN "load-of-nothing"
+       ELSE IF Ev.e = "run" /\ NeedsRun /\ loaded = "yes" /\ Ev.r = "done" THEN "output-mismatch"
+       ELSE IF Ev.e = "run" /\ NeedsRun /\ loaded = "yes" THEN "run-failed"
+       ELSE IF Ev.e = "run" THEN "run-of-nothing"
        ELSE IF Ev.e = "finish" /\ phase = "compiled" /\ loaded = "no" THEN "finish-before-load"
+       ELSE IF Ev.e = "finish" /\ ~RanIfNeeded THEN "finish-before-run"
        ELSE IF Ev.e = "ret" /\ Ev.r = "ok" /\ Ev.len = 0 THEN "ok-without-output"
        ELSE IF Ev.e = "ret" /\ Ev.r = "err" /\ Ev.n = 0 THEN "err-without-errors"
        ELSE "protocol"
@@ -131,7 +163,7 @@ TraceReject ==
     /\ PrintT(<<"REJECT", ToJson([rec |-> k, u |-> Rec[k].u, idx |-> Rec[k].idx, id |-> Rec[k].id, ev |-> j,
                                   phase |-> phase, why |-> Why,
                                   cls |-> IF HasEv THEN Ev.cls ELSE "-"])>>)
-    /\ UNCHANGED <<phase, input, stage, errs, bytes, rendered, loaded, k, j>>
+    /\ UNCHANGED <<phase, input, stage, errs, bytes, rendered, loaded, k, j, cs>>
 
 TraceNext == TraceStep \/ TraceAccept \/ TraceReject
 
